@@ -22,7 +22,8 @@ type replayer struct {
 	aborted        int
 	curPath        []*outRec
 	curAct         *outRec
-	internalHeldBy map[string]bool
+	executed       map[*outRec]bool // distinct edges of the graph executed on the real node
+	stopped        bool             // time budget exhausted
 }
 
 func (r *replayer) replayDesc() any {
@@ -116,7 +117,6 @@ func (r *replayer) stepInternal(src *stateRec, o *outRec) bool {
 	if !o.Gt {
 		// not a pause point of the model: the real call must have run on to the next one
 		p.ahead, p.pending = true, m
-		r.edgesUngated++
 		return true
 	}
 	return r.verifyInternal(src, o, p, m)
@@ -424,6 +424,7 @@ func (r *replayer) goTo(n *node) bool {
 			r.aborted++
 			return false
 		}
+		r.executed[e] = true
 		r.curPath = append(r.curPath, e)
 		cur = r.g.nodes[cur.rec.target(e)]
 	}
@@ -459,6 +460,7 @@ func pathString(p []*outRec, act *outRec) string {
 func (r *replayer) run(budget time.Duration) {
 	w := r.w
 	w.curReplay = r.replayDesc
+	r.executed = map[*outRec]bool{}
 	start := time.Now()
 	treeChild := map[*outRec]bool{}
 	for _, n := range r.g.order {
@@ -468,6 +470,7 @@ func (r *replayer) run(budget time.Duration) {
 	}
 	for _, n := range r.g.order {
 		if time.Since(start) > budget {
+			r.stopped = true
 			r.rep.Note("%s: replay stopped after %s with %d of %d states visited", r.g.cfg, budget, r.statesVisited, len(r.g.order))
 			break
 		}
@@ -480,49 +483,67 @@ func (r *replayer) run(budget time.Duration) {
 		}
 		r.statesVisited++
 		if n.via != nil {
-			r.edgesReplayed++ // the tree edge into n, compared here
 			r.rep.Case(r.g.cfg+"|"+n.parent.key+"|"+n.via.A+":"+n.via.N, n.parent != r.g.init || !n.via.R)
 		}
 		if !r.compare(n, "state after path") {
 			continue
 		}
 		dirty := false
-		// self-loops first (refused requests, queries, WAL write probes, IWrite): no reset needed
+		// self-loops first (refused requests, WAL write probes, IWrite): no reset needed
 		for pass := 0; pass < 2; pass++ {
 			for i := range n.rec.Outs {
 				o := &n.rec.Outs[i]
 				tk := n.rec.target(o)
 				self := tk == n.key
-				if (pass == 0) != self || treeChild[o] {
+				t := r.g.nodes[tk]
+				if (pass == 0) != self {
 					continue
 				}
-				t := r.g.nodes[tk]
+				if treeChild[o] && t.atGate() {
+					continue // executed and compared when the child is visited
+				}
 				if dirty {
 					if !r.goTo(n) {
 						break
 					}
 					dirty = false
 				}
+				keep := len(r.curPath)
 				r.curAct = o
 				ok := r.execEdge(n.rec, o)
-				r.edgesReplayed++
+				r.executed[o] = true
 				r.rep.Case(r.g.cfg+"|"+n.key+"|"+o.A+":"+o.N, true)
 				if !self {
 					dirty = true
 				}
+				// where the real call cannot be paused, pass through its forced steps to the next pause point
+				cur := t
+				for ok && !cur.atGate() {
+					if len(cur.rec.Outs) != 1 {
+						core.Infra("%s: state %s is not a pause point but has %d outgoing edges", r.g.cfg, cur.key, len(cur.rec.Outs))
+					}
+					o2 := &cur.rec.Outs[0]
+					r.curPath = append(r.curPath, r.curAct)
+					r.curAct = o2
+					ok = r.execEdge(cur.rec, o2)
+					r.executed[o2] = true
+					r.edgesUngated++
+					cur = r.g.nodes[cur.rec.target(o2)]
+				}
 				if !ok {
 					r.aborted++
 					dirty = true
-					continue
+				} else if !r.compare(cur, "state after edge") {
+					dirty = true
 				}
-				if t.atGate() {
-					if !r.compare(t, "state after edge") {
-						dirty = true
-					}
-				}
+				r.curPath = r.curPath[:keep]
 				r.curAct = nil
 			}
 		}
+	}
+	r.edgesReplayed = len(r.executed)
+	if !r.stopped && r.aborted == 0 && r.edgesReplayed != r.g.edges {
+		core.Infra("%s: %d of %d edges executed although the replay ran to its end (coverage hole in the driver)", r.g.cfg, r.edgesReplayed, r.g.edges)
 	}
 	w.reset()
 	w.curReplay = nil
